@@ -10,6 +10,12 @@ object it resolves to (`own`, `bl`), whether every entity of the system resolves
 same object (`via`), the attributes, the dated formulas with the identity of their functions, the
 formula in force at every query date, and every parameter read at every query date.
 
+`T!src!reforms!exts` is the YAML test runner's derivation, driven through the REAL
+`openfisca_core.tools.test_runner._get_tax_benefit_system(baseline, reform paths, extension names)`:
+the reforms are generated modules (a `Reform` subclass whose `apply()` performs the listed
+modifications) and the extensions generated packages (a file of variable classes + a `parameters`
+directory) written to a directory on `sys.path` for the duration of the run.
+
 Correspondence: that text, extracted from the real objects, equals the Lean model's.
 Oracle (independent of the model): (1) an operation changes the snapshot of no system but its
 target (and the reforms stacked on the target, which share with it by construction); (2) every
@@ -320,6 +326,7 @@ def oracle(case: Case, impl_out: str):
             return None
     base.base_params = {n: items for n, items in spec["params"]}
     systems = [base]
+    memo: set = set()
     res = check_system(0, base, parse_snap(stages[0][1][0]), qs)
     if res:
         return res
@@ -338,6 +345,29 @@ def oracle(case: Case, impl_out: str):
                 if not new.apply(m):
                     valid = False
                     break
+        elif op[0] == "T":
+            # the test runner's derivation: a copy of the source, the reforms, the extensions; memoised
+            tgt = None
+            key = (op[1], tuple(n for n, _ in op[2]), frozenset(n for n, _, _ in op[3]))
+            if key in memo:
+                valid, new = True, None
+            else:
+                new = systems[op[1]].derive("T", op[1])
+                valid = True
+                for _, mods in op[2]:
+                    new.reform, new.npar, new.lastpar, new.baseline = True, 0, [], None
+                    for m in mods:
+                        valid = valid and new.apply(m)
+                for _, cds, ps in op[3]:
+                    for cd in cds:
+                        valid = valid and new.apply(("add", cd))
+                    for pn, items in ps:
+                        if pn in new.base_params:
+                            valid = False
+                        else:
+                            new.base_params[pn] = items
+                if flag == "ok":
+                    memo.add(key)
         else:
             new, tgt = None, op[1]
             before = copy.deepcopy(systems[tgt])
@@ -354,7 +384,7 @@ def oracle(case: Case, impl_out: str):
                             s.judged = False
         ctx_judged = op[1] < len(systems) and (before.judged if op[0] == "M" else systems[op[1]].judged)
         if valid and not ok and ctx_judged:
-            mods = op[2] if op[0] == "R" else [op[2]] if op[0] == "M" else []
+            mods = op[2] if op[0] == "R" else [op[2]] if op[0] == "M" else [m for _, ms in op[2] for m in ms] if op[0] == "T" else []
             src = systems[op[1]] if op[1] < len(systems) else None
             seen_upd = set()
             sig = "refused:other"
@@ -362,7 +392,7 @@ def oracle(case: Case, impl_out: str):
                 if m[0] == "upd":
                     seen_upd.add(m[1]["name"])
                 if m[0] in ("neu", "ann"):
-                    was = src.vars.get(m[1]) if (src is not None and op[0] == "R") else None
+                    was = src.vars.get(m[1]) if (src is not None and op[0] in ("R", "T")) else None
                     if op[0] == "M":
                         was = before.vars.get(m[1])
                     if m[1] in seen_upd or (was is not None and was["has_baseline"]):
@@ -606,27 +636,62 @@ class Gen:
                 us.append({"name": n, "a": a, "b": b, "v": str(r.randint(1, 6))})
             return ("par", us)
 
+        # what YAML tests name: reforms (by path) and extensions (by package), a few per case so that
+        # the runner's cache keys recur, in the same and in another order
+        runner = r.random() < 0.4
+        rpool, xpool = [], []
+        if runner:
+            for i in range(r.randint(1, 3)):
+                k = r.choice([0, 1, 1, 2])
+                mods = [mod(allow_par=False) for _ in range(k)] if r.random() < 0.5 else [mod() for _ in range(k)]
+                rpool.append((f"r{i}", mods))
+            enames = ["e1", "e2", "e3"]
+            for i in range(r.randint(1, 2)):
+                xp = []
+                if r.random() < 0.65:
+                    pn = f"x{i}" if r.random() < 0.93 else r.choice(pnames)        # (an existing name: refused)
+                    xp.append((pn, [(O(2010, 1, 1), str(r.randint(1, 5)))] + ([(r.choice(PDATES), str(r.randint(1, 5)))] if r.random() < 0.4 else [])))
+                cds = []
+                for n in sorted(r.sample(enames, r.randint(0, 2))):
+                    nm = n if r.random() < 0.95 else r.choice(names)               # (an existing variable: refused)
+                    cds.append(self.classdef(nm, [x for x in names if info[x][0] != "date"],
+                                             pnames + [q for q, _ in xp if q not in pnames and q != "z"], ents,
+                                             dp=r.choice(["month", "year"])))
+                cds.sort(key=lambda c: c["name"])
+                if len({c["name"] for c in cds}) < len(cds):
+                    cds = cds[:1]
+                xpool.append((f"x{i}", cds, xp))
+
+        def runner_op(src):
+            rs = r.sample(rpool, r.randint(0, min(2, len(rpool))))
+            xs = r.sample(xpool, r.randint(0, len(xpool)))
+            if not rs and not xs and r.random() < 0.8:
+                xs = [r.choice(xpool)]
+            return ("T", src, rs, xs)
+
         ops = []
         nsys = 1
         for i in range(r.randint(1, 6)):
-            if i == 0 or r.random() < 0.45 or nsys == 1:
-                src = 0 if (i == 0 or r.random() < 0.4) else r.randrange(nsys)
-                if r.random() < 0.45:
+            if i == 0 or r.random() < 0.45 or nsys == 1 or (runner and r.random() < 0.5):
+                src = 0 if (i == 0 or r.random() < 0.4 or (runner and r.random() < 0.6)) else r.randrange(nsys)
+                if runner and r.random() < 0.7:
+                    ops.append(runner_op(src))
+                elif r.random() < 0.45:
                     ops.append(("C", src))
                 else:
                     ops.append(("R", src, [mod() for _ in range(r.choice([0, 1, 1, 2, 2, 3]))]))
-                nsys += 1          # (a failing reform creates nothing: later indices then err on both sides)
+                nsys += 1          # (a failing derivation or a cache hit creates nothing: later indices may err, on both sides)
             else:
                 ops.append(("M", r.randrange(1, nsys), mod()))
         # queries: boundary dates of what the history mentions
         cand = {O(2018, 1, 1), O(2018, 3, 1)}
-        for cd in vars_ + [m[1] for op in ops for m in (op[2] if op[0] == "R" else [op[2]] if op[0] == "M" else []) if m[0] in ("add", "upd", "rep")]:
+        for cd in vars_ + [cd for op in ops for cd in cds_of(op)]:
             for d, _ in cd["formulas"]:
                 cand |= {d, d - 1} if d > 1 else {d}
             if cd["end"] is not None:
                 cand |= {cd["end"], cd["end"] + 1}
         for op in ops:
-            for m in (op[2] if op[0] == "R" else [op[2]] if op[0] == "M" else []):
+            for m in mods_of(op):
                 if m[0] == "par":
                     for u in m[1]:
                         cand |= {u["a"], u["a"] - 1}
@@ -647,18 +712,44 @@ class Gen:
             inputs.append([n, dp, 2018, r.choice([1, 1, 3]), vals])
         requests = [[r.choice(names + NEWNAMES[:1]) if r.random() < 0.9 else r.choice(NEWNAMES), r.choice([2018, 2018, 2019]),
                      r.choice([1, 3, 3, 12])] for _ in range(r.randint(4, 8))]
+        for n in sorted({cd["name"] for _, cds, _ in xpool for cd in cds}):
+            requests.insert(r.randrange(len(requests) + 1), [n, 2018, r.choice([1, 3])])
         return {"ents": ents, "params": params, "vars": vars_, "ops": ops, "queries": queries,
                 "fdefs": dict(self.fdefs), "sim": {"inputs": inputs, "requests": requests}}
+
+
+def mods_of(op):
+    """every modification an operation carries"""
+    if op[0] == "R":
+        return op[2]
+    if op[0] == "M":
+        return [op[2]]
+    if op[0] == "T":
+        return [m for _, ms in op[2] for m in ms]
+    return []
+
+
+def cds_of(op):
+    """every class definition an operation carries"""
+    out = [m[1] for m in mods_of(op) if m[0] in ("add", "upd", "rep")]
+    if op[0] == "T":
+        out += [cd for _, cds, _ in op[3] for cd in cds]
+    return out
 
 
 def case_of(spec, tags=(), origin="gen") -> Case:
     kinds = set()
     for op in spec["ops"]:
-        kinds.add({"C": "clone", "R": "reform", "M": "modify"}[op[0]])
-        for m in (op[2] if op[0] == "R" else [op[2]] if op[0] == "M" else []):
+        kinds.add({"C": "clone", "R": "reform", "M": "modify", "T": "test-runner"}[op[0]])
+        for m in mods_of(op):
             kinds.add(m[0])
-        if op[0] in ("C", "R") and op[1] > 0:
+        if op[0] in ("C", "R", "T") and op[1] > 0:
             kinds.add("chained")
+        if op[0] == "T":
+            kinds.add("runner:reforms" if op[2] else "runner:no-reform")
+            kinds.add("runner:extensions" if op[3] else "runner:no-extension")
+            if op[2] and op[3] and not any(m[0] == "par" for _, ms in op[2] for m in ms) and any(ps for _, _, ps in op[3]):
+                kinds.add("runner:shared-tree+ext-params")
     return Case(line=su.fmt_line(spec), tags=tuple(sorted(kinds)) + tuple(tags), origin=origin)
 
 
@@ -703,7 +794,12 @@ def _base_spec(ops, requests, inputs=(), params=None, fdefs=None, vars_=None):
             "sim": {"inputs": [list(i) for i in inputs], "requests": [list(q) for q in requests]}}
 
 
+_FD = {1: ["+", ["k", 7], ["m"]], 2: ["*", ["v", "a", "s"], ["p", "r"]], 3: ["k", 100]}
+
+
 def corpus():
+    x_town = ("x0", [{"name": "town_allowance", "vt": "float", "default": None, "entity": "household", "dp": "month",
+                      "end": None, "si": None, "formulas": [(1, 7)]}], [("town", [(O(2010, 1, 1), "100")])])
     upd_b = {"name": "b", "vt": None, "default": None, "entity": None, "dp": None, "end": None, "si": None,
              "formulas": [(O(2017, 1, 1), 3)]}
     pu_r = {"name": "r", "a": O(2016, 1, 1), "b": None, "v": "5"}
@@ -724,6 +820,12 @@ def corpus():
         # F-C14e: a second parameter modifier in a reform (or in the copy of a reform) dropped the first
         (_base_spec([("R", 0, [("par", [pu_r]), ("par", [pu_s])])], [("b", 2018, 1)]), "F-C14e"),
         (_base_spec([("R", 0, [("par", [pu_r])]), ("C", 1), ("M", 2, ("par", [pu_s]))], [("b", 2018, 1)]), "F-C14e"),
+        # the YAML test runner: a reform that touches no parameter (it shares its baseline's tree), then an
+        # extension that brings parameters; afterwards the same extension alone, from the same base
+        (_base_spec([("T", 0, [("r0", [("neu", "a")])], [x_town]), ("T", 0, [], [x_town]), ("T", 0, [("r0", [("neu", "a")])], [x_town])],
+                    [("town_allowance", 2018, 1), ("b", 2018, 1)], fdefs={**_FD, 7: ["+", ["p", "town"], ["k", 1]]}), "runner-reform-then-extension"),
+        (_base_spec([("T", 0, [], [x_town]), ("T", 0, [("r1", [("par", [pu_r])]), ("r0", [("neu", "a")])], [x_town]), ("C", 0), ("T", 3, [("r0", [("neu", "a")])], [])],
+                    [("town_allowance", 2018, 1), ("b", 2018, 1)], fdefs={**_FD, 7: ["+", ["p", "town"], ["k", 1]]}), "runner-extension-then-reform"),
         # neutralised variables ignore inputs
         (_base_spec([("R", 0, [("neu", "a")])], [("a", 2018, 1), ("b", 2018, 1)], inputs=[("a", "month", 2018, 1, [4, 5, 6])]), "neutralized-input"),
     ]
@@ -771,6 +873,28 @@ def enumerate_thorough():
                 spec = _base_spec(ops, requests, inputs=inputs, fdefs=fdefs, vars_=vars_)
                 spec["queries"] = [O(2016, 12, 31), O(2017, 1, 1), O(2018, 2, 1), O(2018, 2, 28), O(2021, 1, 1)]
                 yield case_of(spec, tags=("enum",), origin="enum")
+    yield from enumerate_runner()
+
+
+def enumerate_runner():
+    """every ordered pair of test-runner derivations from one base, over all combinations of
+    {no reform, a parameter-neutral reform, a parameter-modifying reform, both in either order} x
+    {no extension, an extension with parameters, one without, both in either order}"""
+    import itertools
+    cd = lambda name, fid, ent="person": {"name": name, "vt": "float", "default": None, "entity": ent, "dp": "month",
+                                          "end": None, "si": None, "formulas": [(1, fid)]}
+    rn = ("rn", [("neu", "a")])
+    rp = ("rp", [("par", [{"name": "r", "a": O(2016, 1, 1), "b": None, "v": "5"}]), ("upd", dict(cd("b", 8), vt=None, entity=None, dp=None, formulas=[(O(2017, 1, 1), 8)]))])
+    xa = ("xa", [cd("town_allowance", 7, "household")], [("town", [(O(2010, 1, 1), "100")])])
+    xb = ("xb", [cd("e2", 9)], [])
+    fdefs = {**_FD, 7: ["+", ["p", "town"], ["k", 1]], 8: ["+", ["v", "a", "s"], ["p", "r"]], 9: ["*", ["v", "b", "s"], ["k", 2]]}
+    rsets = [[], [rn], [rp], [rn, rp], [rp, rn]]
+    xsets = [[], [xa], [xb], [xa, xb], [xb, xa]]
+    kinds = list(itertools.product(rsets, xsets))
+    requests = [("town_allowance", 2018, 1), ("b", 2018, 1), ("e2", 2018, 3), ("a", 2018, 1)]
+    for k1, k2 in itertools.product(kinds, repeat=2):
+        ops = [("T", 0, k1[0], k1[1]), ("T", 0, k2[0], k2[1])]
+        yield case_of(_base_spec(ops, requests, fdefs=fdefs), tags=("enum", "enum-runner"), origin="enum")
 
 
 def neighbours(case: Case):
@@ -799,10 +923,13 @@ PROP = Prop(
     neighbours=neighbours,
     exhaustive_note=("thorough: every pair and every triple of ten representative modifications (neutralise / annualise / "
                      "update / replace / add / two parameter modifiers) in three derivation shapes (clone + calls, one reform, "
-                     "chained reforms) on a fixed three-variable base: 3 300 histories"),
+                     "chained reforms) on a fixed three-variable base: 3 300 histories; plus every ordered pair of test-runner "
+                     "derivations over 5 reform lists x 5 extension lists (parameter-neutral / parameter-modifying reforms, "
+                     "extensions with / without parameters): 625 histories"),
     canon_equal=canon_equal,
     driver="ofdrv_sys",
-    rule=("a history of derivations (clone / reform / chained reform) and modifications (add / update / replace / "
+    rule=("a history of derivations (clone / reform / chained reform / the YAML test runner's _get_tax_benefit_system with "
+          "reforms by path and extension packages) and modifications (add / update / replace / "
           "neutralise / annualise / parameter modifier) is replayed on the real objects and on the heap model; after "
           "every operation the snapshot of every system (resolution by name and through each entity, attributes, dated "
           "formulas, formula in force and parameters at the query dates, alias classes) must be equal on both sides, "
